@@ -31,13 +31,6 @@ def gen_scenario(rng, engine):
     if not own_meta:
         cm['meta'].pop('key_to_field', None)
         cm['meta'].pop('field_to_alias', None)
-    elif cm['meta'].get('field_to_alias'):
-        # kept out for now: a genuine defect of the unchanged library (findings/v1-meta-alias-marker-popped.py) — the
-        # '__load__' / '__dump__': False markers of Meta.v1_field_to_alias are popped at the first bind and lost when the
-        # Meta is bound again for the nested use; the one-direction markers stay covered by the flat part (c08_e2e.py)
-        fa = cm['meta']['field_to_alias']
-        if fa['load'] is False or fa['dump'] is False:
-            fa['load'] = fa['dump'] = None
     outers = []
     for _ in range(rng.choice([1, 2, 2, 2, 3])):
         outers.append({'shape': rng.choice(SHAPES), 'extra': rng.random() < 0.4})
